@@ -5,7 +5,7 @@ sequential histories comparing every identity with the model."""
 import vlib, suites, subprocess
 from fhgen import *
 
-RULE = ("sequential histories of new/add/remove(known and unknown start)/clone comparing every identity handed out with "
+RULE = ("sequential histories of new/add/remove(known and unknown start)/clone/clone_from comparing every identity handed out with "
         "the model; plus 16 real threads x ops of new/add_module/remove_module (x runs), all identities read through "
         "verif_modules_generation and checked pairwise distinct; distinct = op kind x outcome")
 ASSUMPTIONS = ["AtomicU16::fetch_add is one indivisible read-modify-write even with Ordering::Relaxed (hardware / Rust memory model; not provable here)",
@@ -40,7 +40,11 @@ def generate(rng, tier):
                     s.add("remove %s %s" % (u, hx(rng.choice([0x999, 0x1001, 0]))), tag="remove-unknown")
                 else:
                     v = "U%d" % rng.below(4)
-                    s.add("clone %s %s" % (u, v), tag="clone"); unws[v] = set(unws[u])
+                    if v in unws and v != u and rng.chance(1, 2):
+                        s.add("clonefrom %s %s" % (v, u), tag="clonefrom")         # Clone::clone_from on an existing unwinder
+                    else:
+                        s.add("clone %s %s" % (u, v), tag="clone")
+                    unws[v] = set(unws[u])
         out.append(("gens-%s-%d" % (arch, rep), s))
     return out
 
@@ -66,6 +70,12 @@ def judge(script, impl):
             if cur.get(toks[1]) != g:
                 bad.append((ln, "clone does not share its source's identity"))
             cur[toks[2]] = g
+        elif toks[0] == "clonefrom":
+            # the refreshed unwinder has the source's modules: it must not keep the identity it had with its old modules
+            if cur.get(toks[2]) != g:
+                bad.append((ln, "clone_from left the destination with identity %d although its module set is now the source's (identity %s): "
+                                "a shared cache serves it rules computed for its old modules" % (g, cur.get(toks[2]))))
+            cur[toks[1]] = g
         elif tag == "remove-unknown":
             if cur.get(toks[1]) != g:
                 bad.append((ln, "removing an unknown start changed the identity"))
